@@ -100,3 +100,42 @@ Proof.
                                       (fun u tc sf => proj1 (proj2 (battalion_contract bz Hbz port u tc sf)))).
 Qed.
 Print Assumptions c09_valve_games_requests.
+
+(* ---- Minecraft (TCP and UDP): for every script, every connection is opened to the query's port, and everything sent
+   goes to that port and is a request of the variant's protocol: the Java handshake carrying the configured host name,
+   protocol version and the port, then the status request and the ping, each framed by its length; the Bedrock
+   unconnected ping; the legacy ping of the group; no reservation is driven by a field of a reply ---- *)
+From GD Require Import Proofs.MinecraftRequests.
+Theorem c09_minecraft_trace_language_means : forall port reqs e,
+  Qnet port reqs e = match e with
+                     | SendEv p d => p = port /\ reqs d
+                     | NewTcp p _ => p = port
+                     | NewUdp p => p = port
+                     | Reserve _ => False
+                     | _ => True
+                     end.
+Proof. exact (fun port reqs e => eq_refl). Qed.
+Print Assumptions c09_minecraft_trace_language_means.
+Theorem c09_minecraft_java_requests_means : forall port rs d,
+  java_requests port rs d <->
+  ((exists hs, as_string (rs_hostname rs) = Ok hs
+               /\ d = mc_frame ([0] ++ as_varint (rs_protocol_version rs) ++ hs ++ le_bytes 2 port ++ [1]))
+   \/ d = mc_frame [0] \/ d = mc_frame [1]).
+Proof. intros; reflexivity. Qed.
+Print Assumptions c09_minecraft_java_requests_means.
+Theorem c09_minecraft_java_requests : forall json, (forall t, json t <> None) -> forall port t rs, settings_ok t ->
+  Mok (Qnet port (java_requests port (match rs with Some r => r | None => rs_default end))) (query_java json port t rs).
+Proof. exact java_requests_ok. Qed.
+Print Assumptions c09_minecraft_java_requests.
+Theorem c09_minecraft_legacy_requests : forall g port t, settings_ok t ->
+  Mok (Qnet port (fun d => d = legacy_request g)) (query_legacy_specific g port t).
+Proof. exact legacy_requests_ok. Qed.
+Print Assumptions c09_minecraft_legacy_requests.
+Theorem c09_minecraft_bedrock_requests : forall port t, settings_ok t ->
+  Mok (Qnet port (fun d => d = bedrock_ping)) (query_bedrock port t).
+Proof. exact bedrock_requests_ok. Qed.
+Print Assumptions c09_minecraft_bedrock_requests.
+Theorem c09_minecraft_auto_requests : forall json, (forall t, json t <> None) -> forall port t rs, settings_ok t ->
+  Mok (Qnet port (auto_requests port (match rs with Some r => r | None => rs_default end))) (query_auto json port t rs).
+Proof. exact auto_requests_ok. Qed.
+Print Assumptions c09_minecraft_auto_requests.
